@@ -539,7 +539,7 @@ impl Prop for C11 {
 		 legal-but-unusual spellings (padded varints, negative-count blocks), fault-derived damage (bit flips, replacements, truncation, insertions) and random bytes; \
 		 container scenarios are whole files (valid, truncated or damaged) of every codec. For each scenario the slice path runs once and the reader path runs under every refill plan: \
 		 every Fixed(k) for k=1..len (len<=64; sampled above), one cut after every byte inside every multi-byte token, random cyclic plans, BufReader capacities 1..16. \
-		 An evaluation is one decode. A case is non-trivial when a refill boundary exists; distinct = distinct (target, outcome class, token kind straddling the first boundary, offset inside it, byte-wise/scratch path used, generator kind, mode). One scenario in 300 is a LONG stream: 250-1200 datums (size patterns as in C05) encoded one after the other and decoded through ONE DeserializerState per path (slice, and eight reader plans): the two paths must agree datum by datum and, when all decode, on the bytes consumed. Targets: capture, alternative hints (eight per node kind: char, newtype struct, option, unit struct, enum, other integer / float widths, identifier, any ...), masked (some fields ignored), ignored, blind, hash. One datum scenario in forty is deliberately large-scale (fields around 8 KiB and 64 KiB and above, two- and three-byte counts and indices, deep lists)."
+		 An evaluation is one decode. A case is non-trivial when a refill boundary exists; distinct = distinct (target, outcome class, token kind straddling the first boundary, offset inside it, byte-wise/scratch path used, generator kind, mode). One scenario in 300 is a LONG stream: 250-1200 datums (size patterns as in C05) encoded one after the other and decoded through ONE DeserializerState per path (slice, and eight reader plans): the two paths must agree datum by datum and, when all decode, on the bytes consumed. When such a stream holds datums that the caller's type refuses (the refusing target, an alternative hint that does not fit), decoding GOES ON after the error on the same state, and the next attempt is compared whenever both paths stand at the same byte position. Targets: capture, alternative hints (eight per node kind: char, newtype struct, option, unit struct, enum, other integer / float widths, identifier, any ...), masked (some fields ignored), ignored, blind, hash. One datum scenario in forty is deliberately large-scale (fields around 8 KiB and 64 KiB and above, two- and three-byte counts and indices, deep lists)."
 	}
 	fn assumptions(&self) -> Vec<String> {
 		vec![
